@@ -588,9 +588,7 @@ class Ctx:
             "wall_s": wall,
             "violations": len(self.problems) + len(failed_obl),
         }
-        os.makedirs(os.path.join(VERIF, "evidence"), exist_ok=True)
-        with open(os.path.join(VERIF, "evidence", self.pid + ".json"), "w") as f:
-            json.dump(ev, f, indent=1)
+        write_evidence(self.pid, ev)
         for k in self.known_hit:
             print("KNOWN-FINDING: property=%s %s" % (self.pid, k["what"]))
         if violation:
@@ -602,6 +600,47 @@ class Ctx:
             self.pid, self.tier, self.seed, n_ok, n_obl, self.evaluations, len(self.nontrivial), wall))
         sys.stdout.flush()
         return 0
+
+
+def clip_evidence(x, maxstr):
+    """Evidence is a description of the run, not an archive: a case whose input or output is megabytes long
+    (the stall/flush streams send tens of thousands of lines through one connection) is written out as its
+    head, its length and a digest of the whole string; the replay file of a violation keeps the full case."""
+    if isinstance(x, str):
+        if len(x) <= maxstr:
+            return x
+        return "%s...[clipped: %d chars in all, sha256=%s]" % (
+            x[:maxstr], len(x), hashlib.sha256(x.encode("utf-8", "replace")).hexdigest()[:16])
+    if isinstance(x, list):
+        return [clip_evidence(i, maxstr) for i in x]
+    if isinstance(x, tuple):
+        return [clip_evidence(i, maxstr) for i in x]
+    if isinstance(x, dict):
+        return {k: clip_evidence(v, maxstr) for k, v in x.items()}
+    return x
+
+
+EVIDENCE_MAX_BYTES = 200000
+
+
+def write_evidence(pid, ev):
+    """Write evidence/<pid>.json: every string bounded, the whole file bounded, and the file replaced atomically
+    (written next to its final place, flushed, renamed) so that a reader never sees half a record."""
+    body = None
+    for maxstr in (1500, 600, 240, 96):
+        body = json.dumps(clip_evidence(ev, maxstr), indent=1)
+        if len(body.encode("utf-8")) <= EVIDENCE_MAX_BYTES:
+            break
+    json.loads(body)
+    d = os.path.join(VERIF, "evidence")
+    os.makedirs(d, exist_ok=True)
+    tmp = os.path.join(d, ".%s.json.tmp%d" % (pid, os.getpid()))
+    with open(tmp, "w") as f:
+        f.write(body)
+        f.write("\n")
+        f.flush()
+        os.fsync(f.fileno())
+    os.replace(tmp, os.path.join(d, pid + ".json"))
 
 
 def first_difference(a, b):
